@@ -212,6 +212,13 @@ def build_driver(name: str, coq_module: str, entry: str = "run_case") -> Path:
     GEN.mkdir(parents=True, exist_ok=True)
     BIN.mkdir(parents=True, exist_ok=True)
     exe = BIN / f"{name}_driver"
+    # the module's own .vo may lie outside every props cone (e.g. scopes/ChainCodec.v): build it first
+    src = sorted(COQ.glob(f"*/{coq_module}.v"))
+    if src:
+        vo = src[0].with_suffix(".vo")
+        ok, log = coq_make([str(vo.relative_to(COQ))], timeout=1500)
+        if not ok:
+            raise RuntimeError(f"build of {coq_module} failed:\n{log[-3000:]}")
     with locked(f"driver_{name}"):
         xv = GEN / f"X_{name}.v"
         xv.write_text(
